@@ -5,13 +5,13 @@ from .. import explore, streams
 from ..core import Check, Space
 from .c11 import _prefixes
 
-QMDS = [(("a", 1),), (("a", 2),), (("b", 1),), (("a", 1), ("b", 2)), (("a", 0),), (("b", ""),)]
+QMDS = [(("a", 1),), (("a", 2),), (("b", 1),), (("a", 1), ("b", 2)), (("a", 0),), (("b", ""),), (("a", None),)]
 KEYS = ("a", "b", "zz")
 
 
 class Model:
-    def __init__(self, derive=("Select", "Where", "MD1"), qmds=QMDS[:2] + QMDS[3:], execs=("Value",), roots=(1, 1)):
-        self.derive, self.qmds, self.execs, self.roots = list(derive), list(qmds), list(execs), roots
+    def __init__(self, derive=("Select", "Where", "MD1"), qmds=QMDS[:2] + QMDS[3:], execs=("Value",), roots=(1, 1), held=False):
+        self.derive, self.qmds, self.execs, self.roots, self.held = list(derive), list(qmds), list(execs), roots, held
 
     def fresh(self):
         w = streams.World(*self.roots)  # untyped and typed datasets (callbacks, defaulted parameters)
@@ -27,6 +27,10 @@ class Model:
                 ops.append(("QMD", i, q))
             for e in self.execs:
                 ops.append((e, i))
+            if self.held:
+                ops.append(("QMDheld", i))
+        if self.held:
+            ops.append(("MutHeld", 0))
         return ops
 
     def op_name(self, op):
@@ -36,7 +40,7 @@ class Model:
         return {"exec" if w.last else "derive"}
 
     def key(self, w):
-        return w.key()
+        return w.key() + repr(sorted(getattr(w, "held", {}).items()))
 
     def apply(self, w, op):
         from func_adl.ast.ast_hash import calc_ast_hash
@@ -53,12 +57,23 @@ class Model:
                                  "msg": f"after {op}: stream #{j} {w.deriv[j]} key {k!r}: lookup -> {got!r}, "
                                         f"last value set on its path -> {want!r}"})
                     return viol
+        executed = None
         if w.last is not None:
             i = w.last["target"]
             n0 = w.last["n0"]
             if len(w.log) != n0 + 1:
                 return [{"kind": "executor-calls", "msg": f"{len(w.log) - n0} executor calls for one value()"}]
-            got = w.log[-1][1]
+            executed = (i, w.log[-1][1])
+        elif op[0] not in ("MutHeld",) and len(w.streams) > len(w.datasets):
+            # a stream was just derived: execute it as well (what its executor receives must not depend on the
+            # QMetaData calls on its path, e.g. through an item type they lost)
+            i = len(w.streams) - 1
+            n0 = len(w.log)
+            w.streams[i].value()
+            executed = (i, w.log[-1][1])
+            del w.log[n0:]
+        if executed is not None:
+            i, got = executed
             tw = w.twin[i]
             n1 = len(w.log)
             tw.value()
@@ -88,8 +103,10 @@ class C16(Check):
             "derivation and updated by QMetaData; after EVERY transition lookup_query_metadata(s, k) is compared "
             "with the model for every live stream and k in {a, b, never-set}; at value() the AST the executor "
             "receives, its ast.dump, unparse text and calc_ast_hash are compared with those of the same "
-            "derivation chain built without any QMetaData")
-    assumptions = ["values are small ints incl. falsy ones (0, ''), plus values that differ but print alike (1 / '1', 2.5 / '2.5', "
+            "derivation chain built without any QMetaData; every newly derived stream is executed as well (not only the "
+            "targets of value()), so a QMetaData call that changes what LATER derivations emit is seen; model 'held': the "
+            "caller keeps ONE dict object, hands it to several QMetaData calls on any streams and edits it afterwards")
+    assumptions = ["values are small ints incl. falsy ones (0, '') and None (a key set to None reads as None: the most recent value), plus values that differ but print alike (1 / '1', 2.5 / '2.5', "
                    "(1, 2) / '(1, 2)'); equal-value re-sets are in the alphabet ({a:1} twice); values that are equal under == "
                    "but of different type (1 / True / 1.0) are outside"]
     level_text = ("explicit-state model checking of the implementation: all histories to the stated depth, "
@@ -97,7 +114,8 @@ class C16(Check):
 
     def spaces(self, tier):
         Q = tier == "quick"
-        plan = [("full", 3, 1), ("qmdonly", 4, 2), ("values", 3, 1)] if Q else [("full", 4, 2), ("qmdonly", 5, 2), ("values", 4, 2)]
+        plan = [("full", 3, 1), ("qmdonly", 4, 2), ("values", 3, 1), ("held", 4, 2)] if Q else \
+            [("full", 4, 2), ("qmdonly", 5, 2), ("values", 4, 2), ("held", 5, 2)]
         out = []
         for mname, depth, plen in plan:
             m = self._model(mname)
@@ -109,11 +127,14 @@ class C16(Check):
     def _model(self, name):
         if name == "full":
             return Model()
+        if name == "held":
+            # the caller keeps ONE dict object, passes it to several QMetaData calls and edits it in between / afterwards
+            return Model(derive=("Select",), qmds=[(("a", 2),)], execs=(), roots=(1, 0), held=True)
         if name == "values":
             # values that are different but print alike (1 / '1', 2.5 / '2.5', a tuple / its text)
             return Model(derive=("Select",), qmds=[(("a", 1),), (("a", "1"),), (("a", 2.5),), (("a", "2.5"),), (("a", (1, 2)),),
                                                     (("a", "(1, 2)"),)], execs=(), roots=(1, 0))
-        return Model(derive=("Select",), qmds=QMDS[:3] + QMDS[4:5], execs=(), roots=(1, 0))
+        return Model(derive=("Select",), qmds=QMDS[:3] + QMDS[4:5] + QMDS[6:7], execs=(), roots=(1, 0))
 
     def run_prefix(self, payload):
         mname, depth, prefix = payload
